@@ -106,8 +106,8 @@ class Gen:
             r = self.i(0, 9)
             flag = 'i' if r <= 1 else 's' if r == 2 else None
         name = str(key)
-        if ':' in name:
-            return None
+        if ':' in name or getattr(key, 'namespace', None) is not None:
+            return None   # namespaced attributes and xmlns declarations are C12's business
         if self.cfg.safe_ci and (flag == 'i' or R.ascii_lower(name) == 'type') and not (
                 _ascii_or_uncased(val) and _ascii_or_uncased(v)):
             flag = 's' if R.ascii_lower(name) == 'type' else None
